@@ -3,6 +3,7 @@ import Mathlib.Algebra.Order.Floor.Ring
 import Mathlib.Data.Rat.Floor
 import Uom.Proofs.BodyEq.Round
 import Uom.Proofs.FloatOps
+import Uom.Proofs.OracleSound
 /-!
 # C16 — rounding to a unit rounds the value as expressed in that unit
 
@@ -122,6 +123,23 @@ theorem trunc_float (f : Fmt) (hf : f.WF) (h4 : 4 ≤ f.p) (coef cA cS fac v : F
         |(((Proofs.ratTruncQ (Fl.toRat (fromBase (flS f) coef cS fac v)) : Int) : Rat) + cA.toRat)
           * coef.toRat / fac.toRat| :=
   Proofs.trunc_in_unit_abs_le hf h4 hg H
+
+/-! ### the executable oracle accepts the model, for every input
+
+`oracleStdRounding` is what the driver evaluates on the implementation's observed `floor` / `ceil` /
+`round` / `trunc` results.  For every case and every canonical value `g` read in the unit, the model's
+result `new(op(g))` is never rejected. -/
+theorem oracle_accepts_rounding (c : ConvCase) (hf : c.fmt.WF) (h4 : 4 ≤ c.fmt.p)
+    (hcA : Fl.Canonical c.fmt c.consA) (g : Fl) (hg : Fl.Canonical c.fmt g) (why : String) :
+    oracleStdRounding c 0 g
+        (toBase (flS c.fmt) c.coef c.consA (baseFactor (flS c.fmt) c.pows) (Fl.floor c.fmt g)) ≠ .fail why ∧
+    oracleStdRounding c 1 g
+        (toBase (flS c.fmt) c.coef c.consA (baseFactor (flS c.fmt) c.pows) (Fl.ceil c.fmt g)) ≠ .fail why ∧
+    oracleStdRounding c 2 g
+        (toBase (flS c.fmt) c.coef c.consA (baseFactor (flS c.fmt) c.pows) (Fl.round c.fmt g)) ≠ .fail why ∧
+    oracleStdRounding c 3 g
+        (toBase (flS c.fmt) c.coef c.consA (baseFactor (flS c.fmt) c.pows) (Fl.trunc c.fmt g)) ≠ .fail why :=
+  Proofs.oracleStdRounding_sound c hf h4 hcA g hg why
 
 /-! ### tie to the source: the function bodies regenerated from /repo/src on this run
 
